@@ -370,6 +370,42 @@ def feed_direct(frames: Sequence[Tuple[int, bytes]], kind: str, monitored: List[
     return res
 
 
+def probe_send_failures(frames: Sequence[Tuple[int, bytes]], monitored: List[int], tx_ids: List[int],
+                        fail_every: int, padding: int = 0) -> Dict[str, int]:
+    """Transmit faults (observed, not judged): the bus of an active decoder rejects every n-th send with
+    can.CanOperationError ("transmit buffer full", interface down).  Counts how often the error escapes
+    decode_rx_frame() and how many telegrams are still reported."""
+    import can
+
+    import odxtools.isotp_state_machine as ism
+    obs = {"sends": 0, "send_failures_injected": 0, "escaped_decode_rx_frame": 0, "telegrams_reported": 0,
+           "other_exceptions": 0}
+    SimBus = make_bus_class()
+
+    def on_send(msg) -> None:
+        obs["sends"] += 1
+        if obs["sends"] % max(1, fail_every) == 0:
+            obs["send_failures_injected"] += 1
+            raise can.CanOperationError("simulated: transmit buffer full")
+
+    bus = SimBus(lambda: None, on_send)
+    try:
+        with quiet():
+            sm = ism.IsoTpActiveDecoder(can_bus=bus, can_rx_ids=list(monitored), can_tx_ids=list(tx_ids),
+                                        padding_size=padding)
+            for fid, data in frames:
+                try:
+                    for _ in sm.decode_rx_frame(fid, bytes(data)):
+                        obs["telegrams_reported"] += 1
+                except can.CanOperationError:
+                    obs["escaped_decode_rx_frame"] += 1
+                except Exception:  # noqa: BLE001
+                    obs["other_exceptions"] += 1
+    finally:
+        shut(bus)
+    return obs
+
+
 def drive_agen(agen, on_item: Callable[[Any], None]) -> None:
     """Drive an async generator that never really awaits (the text path) by hand."""
     while True:
